@@ -32,11 +32,17 @@ BOTH = (UND, DIR)
 # (name, properties expected to notice, files, old, new)
 M = [
     ('adjacent_span_ignored', ['C01', 'C03'], BOTH, "            elif t[1] > max_end:\n", "            elif t[1] > max_end and t[0] <= max_end:\n"),
+    ('adjacent_interval_span_ignored', ['C01', 'C03'], BOTH, "            elif t[1] > max_end:\n", "            elif t[1] > max_end and (t[0] <= max_end or e is None):\n"),
+    ('extend_keeps_old_start_of_span', ['C01', 'C03'], (UND,), "                app[-1] = [start, t[1]]\n", "                app[-1] = [min(start, t[0]) if e is None else t[0], t[1]]\n"),
+    ('del_event_only_for_long_runs', ['C05'], (UND,), '                self.__del_event(u, v, "-", max_end + 1)\n', '                if start < max_end:\n                    self.__del_event(u, v, "-", max_end + 1)\n'),
+    ('plus_event_on_contained_interval', ['C05'], BOTH, "                covered = []\n                if e is not None and self.edge_removal and t[1] == max_end:", "                covered = []\n                if e is not None and t[0] > start:\n                    self.__add_event(u, v, \"+\", t[0])\n                if e is not None and self.edge_removal and t[1] == max_end:"),
+    ('restated_minus_anywhere', ['C05'], BOTH, "                if e is not None and self.edge_removal and t[1] == max_end:", "                if e is not None and self.edge_removal:"),
     ('stale_minus_on_extend', ['C05'], BOTH, '                self.__del_event(u, v, "-", max_end + 1)\n', ''),
     ('no_minus_for_point_extension', ['C05'], BOTH, "if self.edge_removal and (e is not None or start < max_end):", "if self.edge_removal and e is not None:"),
     ('overlap_double_counted', ['C04'], BOTH, "                covered = range(max_end + 1, t[1] + 1)\n", ""),
     ('contained_counted_again', ['C04'], BOTH, "                covered = []\n", ""),
-    ('nodes_created_before_check', ['C07'], (UND,), '''        if u in self._adj and v in self._adj[u] and t[0] < self._adj[u][v]['t'][-1][0]:
+    # equivalent: a rejection needs an existing pair, whose endpoints already exist
+    ('EQUIV_nodes_created_before_check', [], (UND,), '''        if u in self._adj and v in self._adj[u] and t[0] < self._adj[u][v]['t'][-1][0]:
             raise ValueError("The specified interaction extension is broader than "
                              "the ones already present for the given nodes.")
 
@@ -58,9 +64,11 @@ M = [
                              "the ones already present for the given nodes.")
 '''),
     ('flipped_events_not_found', ['C05'], (UND,), "            if (v, u, op) in events:\n                return v, u, op\n", ""),
-    ('accumulative_ids_only_when_new', ['C08'], BOTH, "        if not self.edge_removal:\n            covered = [t[0]]\n", ""),
+    # equivalent for C08: the id of a repeated/contained add instant is already registered
+    ('EQUIV_accumulative_ids_only_when_new', [], BOTH, "        if not self.edge_removal:\n            covered = [t[0]]\n", ""),
     ('accumulative_own_last_instant', ['C08'], BOTH, "            if spans[0][0] <= t <= max(self.temporal_snapshots_ids()):", "            if spans[0][0] <= t <= spans[-1][1]:"),
-    ('accumulative_honours_e', ['C08'], BOTH, "        if e is not None and self.edge_removal:\n            t[1] = e - 1\n", "        if e is not None:\n            t[1] = e - 1\n"),
+    # equivalent: accumulative presence uses only the first start and the global last id
+    ('EQUIV_accumulative_honours_e', [], BOTH, "        if e is not None and self.edge_removal:\n            t[1] = e - 1\n", "        if e is not None:\n            t[1] = e - 1\n"),
     ('rejection_uses_first_run', ['C01', 'C07'], BOTH, "['t'][-1][0]:\n            raise ValueError", "['t'][0][0]:\n            raise ValueError"),
     # ---- queries
     ('successors_from_pred', ['C02'], (DIR,), "                return iter([i for i in self._succ[n] if self.__presence_test(n, i, t)])", "                return iter([i for i in self._pred[n] if self.__presence_test(i, n, t)])"),
@@ -82,7 +90,7 @@ M = [
     ('reciprocal_is_union', ['C16'], (DIR,), "                if (v, u) in done or u not in self._succ[v]:\n                    continue", "                if (v, u) in done:\n                    continue\n                if u not in self._succ[v]:\n                    for o in data['t']:\n                        H.add_interaction(u, v, t=o[0], e=o[1] + 1)\n                    continue"),
     # ---- I/O
     ('single_instant_rows_dropped', ['C09'], (EDG,), "                else:\n                    yield delimiter.join(map(make_str, e))\n            else:", "                else:\n                    pass\n            else:"),
-    ('writer_ignores_delimiter', ['C09', 'C10'], (EDG,), "    for line in generate_snapshots(G, delimiter):", "    for line in generate_snapshots(G):"),
+    ('writer_ignores_delimiter', ['C09'], (EDG,), "    for line in generate_snapshots(G, delimiter):", "    for line in generate_snapshots(G):"),
     ('fourth_column_inclusive', ['C09'], (EDG,), "                if e is not None:\n                    e = timestamptype(e)\n", "                if e is not None:\n                    e = timestamptype(e) + 1\n"),
     ('interactions_reader_ignores_directed', ['C10'], (EDG,), "def parse_interactions(lines, comments='#', directed=False, delimiter=None, nodetype=None, timestamptype=None,\n                       keys=None):\n    if not directed:", "def parse_interactions(lines, comments='#', directed=False, delimiter=None, nodetype=None, timestamptype=None,\n                       keys=None):\n    if True:"),
     ('minus_refill_points', ['C10'], (EDG,), "                G.add_interaction(u, v, t=timestamps[-1][1], e=s)", "                for t in range(timestamps[-1][1], s):\n                    G.add_interaction(u, v, t=t)"),
@@ -103,7 +111,8 @@ M = [
     ('start_guard_dropped', ['C13'], (PTH,), "    if not G.has_node(u, start):\n        return []\n", ""),
     ('min_t_ignored', ['C13'], (PTH,), "    for u in tqdm.tqdm(G.nodes(t=min_t)):", "    for u in tqdm.tqdm(G.nodes()):"),
     ('frontier_stops_early', ['C13'], (PTH,), "        for n in to_add:\n            active[n] = None", "        for n in to_add[:2]:\n            active[n] = None"),
-    ('end_above_last_id_accepted', ['C15'], (PTH,), "    if start < min(ids) or start > end or end > max(ids) or start > max(ids):", "    if start < min(ids) or start > end or start > max(ids):"),
+    # equivalent: the index lookup that follows raises ValueError as well
+    ('EQUIV_end_above_last_id_accepted', [], (PTH,), "    if start < min(ids) or start > end or end > max(ids) or start > max(ids):", "    if start < min(ids) or start > end or start > max(ids):"),
     ('targets_all_neighbors', ['C15'], (PTH,), "                if f\"{v}_{tid}\" in neighbors:\n                    targets[f\"{v}_{tid}\"] = None", "                for k in neighbors:\n                    if k.startswith(f\"{v}\"):\n                        targets[k] = None"),
     ('shortest_ties_lost', ['C14'], (PTH,), "        elif length == shortest:\n            annotated['shortest'].append(copy.copy(path))", "        elif length == shortest and False:\n            annotated['shortest'].append(copy.copy(path))"),
     ('foremost_uses_departure', ['C14'], (PTH,), "        reach = path[-1][-1]", "        reach = path[0][-1]"),
@@ -117,7 +126,8 @@ M = [
     # ---- blocked / frozen
     ('remove_nodes_from_unblocked', ['C19'], (UND,), "    @not_implemented()\n    def remove_nodes_from(self, nbunch):\n        pass", "    def remove_nodes_from(self, nbunch):\n        nx.Graph.remove_nodes_from(self, nbunch)"),
     ('decorator_returns_none', ['C19'], (DEC,), "        raise nx.NetworkXNotImplemented('Method not implemented for dynamic graphs')", "        return None"),
-    ('freeze_forgets_remove_node', ['C19'], (FUN,), "    G.remove_node = frozen\n", ""),
+    # equivalent: remove_node still raises through @not_implemented
+    ('EQUIV_freeze_forgets_remove_node', [], (FUN,), "    G.remove_node = frozen\n", ""),
     ('clear_keeps_stream', ['C19'], (DIR,), "        nx.DiGraph.clear(self)\n        self.time_to_edge = defaultdict(int)\n", "        nx.DiGraph.clear(self)\n"),
     ('update_unblocked_via_add_edges', ['C19'], (UND,), "    @not_implemented()\n    def add_edges_from(self, ebunch, attr_dict=None, **attr):\n        pass", "    def add_edges_from(self, ebunch, attr_dict=None, **attr):\n        for e in ebunch:\n            self._adj.setdefault(e[0], {})[e[1]] = {}\n            self._adj.setdefault(e[1], {})[e[0]] = {}\n            self._node.setdefault(e[0], {})\n            self._node.setdefault(e[1], {})"),
     # ---- conformity
@@ -177,6 +187,9 @@ def main(argv):
     resp = os.path.join(HERE, 'mutants', 'RESULTS.json')
     results = json.load(open(resp)) if os.path.exists(resp) else {}
     for name, props, files, old, new in M:
+        if name.startswith('EQUIV_'):
+            results[name] = {'status': 'equivalent (no observable difference for the property; see comment in tools/mutants.py)'}
+            continue
         if only and name not in only:
             continue
         if props_filter and not (set(props) & props_filter):
